@@ -63,6 +63,10 @@ variable (ρ : String → ℝ)
 /-- C05: n_eff = −3(2·dlnσ/dlnm + 1) -/
 theorem n_eff_eq : evalR opq ρ Gen.Flow.MassFunction_n_eff = -3 * (2 * ρ "_dlnsdlnm" + 1) := by
   simp only [Gen.Flow.MassFunction_n_eff]; expr_unfold <;> first | (push_cast; norm_num; done) | (push_cast; norm_num; ring_nf; done) | expr_finish
+/-- the σ whose slope this is comes from the *same* filter object at the same radii: `_unn_sigma0` is `filter.sigma(radii)`, whatever the
+    wavenumber range (no separate integration grid for σ) -/
+theorem unn_sigma0_eq : evalR opq ρ Gen.Flow.MassFunction__unn_sigma0 = ρ "py:self.filter.sigma(self.radii)" := by
+  simp only [Gen.Flow.MassFunction__unn_sigma0]; expr_unfold <;> first | rfl | expr_finish
 /-- the slope entering dn/dm is half the filter's dlnσ²/dlnm -/
 theorem dlnsdlnm_eq : evalR opq ρ Gen.Flow.MassFunction__dlnsdlnm = 1 / 2 * ρ "py:self.filter.dlnss_dlnm(self.radii)" := by
   simp only [Gen.Flow.MassFunction__dlnsdlnm]; expr_unfold <;> first | (push_cast; norm_num; done) | (push_cast; norm_num; ring_nf; done) | expr_finish
